@@ -356,6 +356,10 @@ def opaque_stream(rep, rng, n_cases):
     lib += [Box("rev2", 2, 2, rev), Box("rev3", 3, 3, rev), Box("fst2", 2, 1, fst), Box("fst3", 3, 1, fst),
             Box("fst1", 1, 1, fst), Box("lst1", 1, 1, lst), Box("lst2", 2, 1, lst), Box("lst3", 3, 1, lst),
             Box("len2", 2, 1, lambda *xs: len(xs)), Box("id1", 1, 1, rev)]
+    # boxes whose function is itself a cartesian diagram (a callable), with and without boxes inside
+    lib += [Box("sub-id2", 2, 2, Id(2)), Box("sub-swap", 2, 2, Swap(1, 1)), Box("sub-copy", 1, 2, Copy(1)),
+            Box("sub-id1", 1, 1, Id(1)), Box("sub-dup", 1, 2, Box("dup", 1, 2, lambda a: (a, a))),
+            Box("sub-id0", 0, 0, Id(0))]
     bad = []
     for _ in range(n_cases):
         n = rng.randint(0, 4)
@@ -380,9 +384,16 @@ def opaque_stream(rep, rng, n_cases):
                 layer, used = b, len(b.dom)
             d = d >> Id(off) @ layer @ Id(w - off - used)
         vals = tuple(rng.choice(pool_vals) for _ in range(n))
-        rep.case(["opaque", repr(d), repr(vals)], nontrivial=True)
+        try:
+            shown = repr(d)
+            want = ci.splice_eval(d, vals)
+        except Exception as exc:   # noqa: a box that cannot be printed or read back is broken
+            bad.append(("a cartesian diagram built from boxes with callable functions cannot be read back: %s: %s"
+                        % (type(exc).__name__, exc), {"boxes": [str(getattr(b, "name", "?")) for b in d.boxes],
+                                                     "inputs": repr(vals)}))
+            continue
+        rep.case(["opaque", shown, repr(vals)], nontrivial=True)
         rep.count("stream:opaque-values")
-        want = ci.splice_eval(d, vals)
         try:
             got = d(*vals)
         except Exception as exc:   # noqa
